@@ -132,6 +132,24 @@ def run(ck):
             vecs.append(rec)
         batches.append((-4, False, vecs, "typedef float v4f __attribute__((vector_size(16)));\ntypedef float v2f __attribute__((vector_size(8)));\ntypedef int aint16 __attribute__((aligned(16)));\n" + "\n".join(x.text() for x in vecs)))
         batches.append((-2, True, named, "#include <stdint.h>\n#include <stddef.h>\n#include <sys/types.h>\n#include <wchar.h>\n#include <uchar.h>\n#include <signal.h>\n" + "\n".join(x.text() for x in named)))
+        # unions of every alignment (1, 2, 4, 8, 16) through scalar / pointer / nested-record / array members, each also embedded after a char
+        # and in an array: both union forms of C02/Union.v must give C's numbers (the marker-struct form is reached through the presentation
+        # option sets below, and by default for the union holding a flexible-array struct) -- seed C02-4
+        uni = []
+        inner = e2e.Rec("UI0")
+        inner.members = [{"name": "d", "decl": "double d", "bitfield": None, "anon": False}, {"name": "c", "decl": "char c", "bitfield": None, "anon": False}]
+        uni.append(inner)
+        for i, members in enumerate((["char a", "char b[3]"], ["short a", "char b[5]"], ["int a", "char b[6]", "float f"], ["double a", "int b"], ["long a", "char b[9]"],
+                                     ["void *a", "short b"], ["long long a", "char b[3]"], ["struct UI0 a", "int b"], ["double a[2]", "char b[17]"],
+                                     ["long double a", "char b"], ["int a", "char b[4]"], ["unsigned long a", "float b[3]"])):
+            u = e2e.Rec("UN%d" % i, "union")
+            u.members = [{"name": re.match(r".*?(\w+)(\[.*\])?$", m).group(1), "decl": m, "bitfield": None, "anon": False} for m in members]
+            uni.append(u)
+            h_ = e2e.Rec("UH%d" % i)
+            h_.members = [{"name": "c", "decl": "char c", "bitfield": None, "anon": False}, {"name": "u", "decl": "union UN%d u" % i, "bitfield": None, "anon": False},
+                          {"name": "t", "decl": "char t", "bitfield": None, "anon": False}, {"name": "arr", "decl": "union UN%d arr[2]" % i, "bitfield": None, "anon": False}]
+            uni.append(h_)
+        batches.append((-5, True, uni, "\n".join(x.text() for x in uni)))
         for b in range(10 if quick else 150):
             plain = b % 5 != 4 and b % 5 != 3
             g = e2e.Gen(r, bitfields=not plain, attrs=not plain)
@@ -156,9 +174,11 @@ def run(ck):
         ck.notes["tracker_trace_lines"] = len(traces)
         replay_traces(ck, traces)
         # ---- presentation invariance on plain batches
-        for (b, plain, recs, hdr), (cn, per, trk) in results[:3 if quick else 30]:
-            if not plain:
-                continue
+        # (the fixed union batch and the <stdint.h> batch first, then generated plain batches)
+        plain_results = sorted([x for x in results if x[0][1]], key=lambda x: (x[0][0] >= 0, -x[0][0] if x[0][0] < 0 else x[0][0]))
+        for (b, plain, recs, hdr), (cn, per, trk) in plain_results[:3 if quick else 30]:
+            if b == -2:
+                continue    # needs its own allowlist; measured once above
             base = {k: v for k, v in per.items() if isinstance(v, dict)}
             for oi, opts in enumerate(PRESENTATION[1:], start=1):
                 cn2, per2, _ = measure(bindgen, tmp, "b%d_o%d" % (b, oi), recs, hdr, opts)
